@@ -339,9 +339,13 @@ func c02EGen(r *rand.Rand, kind int) string {
 		}
 	}
 	switch kind % 3 {
-	case 0: // upstream restarted, writes downstream meanwhile and on both sides afterwards
+	case 0: // upstream restarted; before the sync client has reconnected: writes downstream, and upstream a new node
+		// WITH a child (a sub-tree created upstream arrives one level per catch-up pass, so more than the one pass made
+		// on reconnection is needed); then writes on both sides
 		toks = append(toks, "x")
 		writes([]string{"a"})
+		par := pick(r, nodes)
+		toks = append(toks, "b:ep:"+hxs("u1")+":"+hxs(par)+":"+nt("device"), "b:ep:"+hxs("u2")+":"+hxs("u1")+":"+nt("variable"), "b:np:"+hxs("u2")+":"+pt())
 		writes([]string{"a", "b"})
 	case 1: // sync switched off, both sides diverge, switched on again
 		toks = append(toks, "d")
